@@ -270,6 +270,47 @@ func main() {
 				}
 			})
 		}
+
+		extra := func(fam, m string) {
+			if !sm.Mine() {
+				return
+			}
+
+			c.InFlight(m)
+			c.Family(fam)
+			if one(c, m) && !gen.InArpaTokenCore(m, fullLen, smallLen) {
+				c.NontrivialKey(m)
+			}
+		}
+
+		// Compatibility-mapped look-alikes of the canonical names, decimal
+		// labels around the word sizes at every octet position, and names longer
+		// than the longest ARPA name whose 73rd byte from the end is inside a label.
+		for _, base := range gen.ArpaCanonicalNames() {
+			gen.Confusables(base, func(m string) { extra("confusables", m) })
+		}
+
+		for _, big := range gen.BigDecimals {
+			for pos := 0; pos < 4; pos++ {
+				oct := []string{"4", "3", "2", "1"}
+				oct[pos] = big
+				for k := 1; k <= 4; k++ {
+					for _, root := range []string{".in-addr.arpa", ".in-addr.arpa.", ".IN-ADDR.ARPA"} {
+						extra("big-decimal-octets", strings.Join(oct[4-k:], ".")+root)
+						extra("big-decimal-octets", "host."+strings.Join(oct[4-k:], ".")+root)
+					}
+				}
+			}
+		}
+
+		for k := 28; k <= 32; k++ {
+			nib := strings.Join(gen.ArpaNibbleBase(k), ".")
+			for _, pre := range []string{"ab", "host-1a", "x", "0a", "a0.b1", strings.Repeat("a", 63), "ab." + strings.Repeat("c", 40)} {
+				for _, root := range []string{".ip6.arpa", ".ip6.arpa."} {
+					extra("long-prefix-before-nibbles", pre+"."+nib+root)
+				}
+			}
+		}
 	})
 }
 
